@@ -1,3 +1,2 @@
-import FluteModel.Drv.Util
--- stub: engine `tsi` not built yet
-def main : IO Unit := Flute.Drv.runDriver () (fun _ _ => ((), "bad-op"))
+import FluteModel.Drv.Tsi
+def main : IO Unit := Flute.Drv.runDriver ({} : Flute.Drv.Tsi.DState) Flute.Drv.Tsi.step
